@@ -467,9 +467,12 @@ spec fn ja() int
 spec fn jb() int
 
 spec fn wfEndsA(e vm.SystemEI) bool = hdLen(e) >= 0 && (hdLen(e) > 0 ==> hdFirst(e) == qa(0) && hdLast(e) == qa(hdLen(e) - 1))
-spec fn wfLinksA(e vm.SystemEI) bool = forall i :: 0 <= i && i < hdLen(e) ==> qa(i) != "" && elPresent(e, qa(i)) && elPrev(e, qa(i)) == (i == 0 ? qa(0) : qa(i-1)) && elNext(e, qa(i)) == (i == hdLen(e) - 1 ? "" : qa(i+1))
+// (links stated over PAIRS of neighbouring positions i, j == i+1: the one-variable form `elNext(e, qa(i)) == qa(i+1)` makes every
+// qa-term produce its neighbour's term, a matching loop that took the frame obligations of insertAfterLastJailed beyond 480 CPU s)
+spec fn wfLinksA(e vm.SystemEI) bool = (forall i :: 0 <= i && i < hdLen(e) ==> qa(i) != "" && elPresent(e, qa(i))) && (hdLen(e) > 0 ==> elPrev(e, qa(0)) == qa(0) && elNext(e, qa(hdLen(e) - 1)) == "") && (forall i, j :: 0 <= i && i < j && j <= i + 1 && j < hdLen(e) ==> elNext(e, qa(i)) == qa(j) && elPrev(e, qa(j)) == qa(i))
 spec fn wfDistinctA(e vm.SystemEI) bool = forall i, j :: 0 <= i && i < j && j < hdLen(e) ==> qa(i) != qa(j)
-spec fn wfJailedA(e vm.SystemEI) bool = hdJailed(e) == "" || (0 <= ja() && ja() < hdLen(e) && hdJailed(e) == qa(ja()))
+// (the last conjunct repeats the pair clause of wfLinksA for i == ja(): it only puts the term qa(ja()+1) in front of the solver)
+spec fn wfJailedA(e vm.SystemEI) bool = hdJailed(e) == "" || (0 <= ja() && ja() < hdLen(e) && hdJailed(e) == qa(ja()) && (ja() + 1 < hdLen(e) ==> elNext(e, qa(ja())) == qa(ja() + 1)))
 spec fn wfA(e vm.SystemEI) bool = wfEndsA(e) && wfLinksA(e) && wfDistinctA(e) && wfJailedA(e)
 
 // qb = qa with key nk inserted at position p (n = length before)
@@ -509,7 +512,7 @@ func (s *stakingSC) insertAfterLastJailed(waitingList *WaitingList, blsKey []byt
   ensures  keys-distinct: err == nil && insertedAB(old(jailedPos(s.eei)), old(hdLen(s.eei)), concat(waitingElementPrefix, old(str(blsKey)))) ==> (forall i, j :: 0 <= i && i < j && j < hdLen(s.eei) ==> qb(i) != qb(j))
   ensures  jailed-marker-is-new-key: err == nil ==> hdJailed(s.eei) == concat(waitingElementPrefix, old(str(blsKey)))
   ensures  new-element-holds-the-key: err == nil ==> elBls(s.eei, concat(waitingElementPrefix, old(str(blsKey)))) == old(str(blsKey))
-  assigns  waitingList.FirstKey, waitingList.LastKey, waitingList.LastJailedKey, elems(qint(s.eei, hdLast(s.eei), 20)), elems(qstr(s.eei, hdLast(s.eei), 21)), elems(qstr(s.eei, hdLast(s.eei), 22)), elems(qstr(s.eei, hdLast(s.eei), 23)), elems(qint(s.eei, hdJailed(s.eei), 20)), elems(qstr(s.eei, hdJailed(s.eei), 21)), elems(qstr(s.eei, hdJailed(s.eei), 22)), elems(qstr(s.eei, hdJailed(s.eei), 23)), elems(qint(s.eei, elNext(s.eei, hdJailed(s.eei)), 20)), elems(qstr(s.eei, elNext(s.eei, hdJailed(s.eei)), 21)), elems(qstr(s.eei, elNext(s.eei, hdJailed(s.eei)), 22)), elems(qstr(s.eei, elNext(s.eei, hdJailed(s.eei)), 23)), elems(qint(s.eei, concat(waitingElementPrefix, str(blsKey)), 20)), elems(qstr(s.eei, concat(waitingElementPrefix, str(blsKey)), 21)), elems(qstr(s.eei, concat(waitingElementPrefix, str(blsKey)), 22)), elems(qstr(s.eei, concat(waitingElementPrefix, str(blsKey)), 23)), elems(qint(s.eei, waitingListHeadKey, 10)), elems(qstr(s.eei, waitingListHeadKey, 11)), elems(qstr(s.eei, waitingListHeadKey, 12)), elems(qstr(s.eei, waitingListHeadKey, 13))
+  assigns  waitingList.FirstKey, waitingList.LastKey, waitingList.LastJailedKey, elems(qint(s.eei, hdFirst(s.eei), 20)), elems(qstr(s.eei, hdFirst(s.eei), 21)), elems(qstr(s.eei, hdFirst(s.eei), 22)), elems(qstr(s.eei, hdFirst(s.eei), 23)), elems(qint(s.eei, hdLast(s.eei), 20)), elems(qstr(s.eei, hdLast(s.eei), 21)), elems(qstr(s.eei, hdLast(s.eei), 22)), elems(qstr(s.eei, hdLast(s.eei), 23)), elems(qint(s.eei, hdJailed(s.eei), 20)), elems(qstr(s.eei, hdJailed(s.eei), 21)), elems(qstr(s.eei, hdJailed(s.eei), 22)), elems(qstr(s.eei, hdJailed(s.eei), 23)), elems(qint(s.eei, elNext(s.eei, hdJailed(s.eei)), 20)), elems(qstr(s.eei, elNext(s.eei, hdJailed(s.eei)), 21)), elems(qstr(s.eei, elNext(s.eei, hdJailed(s.eei)), 22)), elems(qstr(s.eei, elNext(s.eei, hdJailed(s.eei)), 23)), elems(qint(s.eei, concat(waitingElementPrefix, str(blsKey)), 20)), elems(qstr(s.eei, concat(waitingElementPrefix, str(blsKey)), 21)), elems(qstr(s.eei, concat(waitingElementPrefix, str(blsKey)), 22)), elems(qstr(s.eei, concat(waitingElementPrefix, str(blsKey)), 23)), elems(qint(s.eei, waitingListHeadKey, 10)), elems(qstr(s.eei, waitingListHeadKey, 11)), elems(qstr(s.eei, waitingListHeadKey, 12)), elems(qstr(s.eei, waitingListHeadKey, 13))
 @*/
 
 // ---- C38: delegation bookkeeping (appended block, agent M) ----
@@ -665,11 +668,15 @@ func (d *delegation) getDelegationContractConfig() (c *DelegationConfig, err err
 
 // the nested call into the validator contract: arbitrary return data and code; assumed not to touch the delegation contract's
 // own records (the validator contract writes under its own address)
+// ASSUMED about the collaborator (the repository's own validator system contract, not verified here): the amount it reports for an
+// accepted unBondTokens/unStakeTokens request is at most the requested value (validatorSC.unBondTokensFromRegistrationData caps
+// totalUnBond at valueToUnBond; this version of validatorSC.unBondTokens reports nothing, which reads as the requested value)
 func (d *delegation) executeOnValidatorSCWithValueInArgs(scAddress []byte, functionToCall string, actionValue *big.Int) (data [][]byte, code vmcommon.ReturnCode)
   trusted
+  ensures  validator-reports-at-most-the-request: code == vmcommon.Ok ==> respAmt(data, actionValue) <= big(actionValue)
   assigns  nothing
 
-// the amount the validator contract reports (last return datum), the requested value if it reports nothing: NOT bounded by the request
+// the amount the validator contract reports (last return datum), the requested value if it reports nothing (bounded by the request only through the assumption stated at executeOnValidatorSCWithValueInArgs)
 spec fn respAmt(returnData [][]byte, userVal *big.Int) int
 func (d *delegation) resolveUnStakedUnBondResponse(returnData [][]byte, userVal *big.Int) (r *big.Int, err error)
   trusted
